@@ -128,6 +128,8 @@ def c04(rec, tier):
     f4_exc.run_native_env(rec, F, S)
     f4_vm.synthetic_call_protocol(rec, F)
     f4_iter.run_error_not_dropped(rec, F)
+    # the handler stack, the error and the frames are alive while a try is active
+    f5_trace.run(rec, F, only_adts=("laythe_vm::fiber::Fiber", "laythe_vm::fiber::exception_handler::ExceptionHandler", "laythe_vm::fiber::call_frame::CallFrame"))
     T = f1_isa.run_tables(rec, F)
     f1_isa.run_effect(rec, F, T, only=("PushHandler", "PopHandler", "CheckHandler", "FinishUnwind", "ContinueUnwind", "GetError", "Raise"))
 
